@@ -55,6 +55,44 @@ def gen(args) -> list:
             u |= flags[i]
         return u
 
+    def valid_date(r):
+        try:
+            c2 = r.calendar
+            return 1 <= r.month <= c2.get_months_in_year(r.year) and 1 <= r.day <= c2.get_days_in_month(r.year, r.month) \
+                and ctor(days_since_epoch=r._days_since_epoch, calendar=c2) == r and LocalDate(r.year, r.month, r.day, c2) == r
+        except Exception:  # noqa: BLE001
+            return False
+
+    # calendars that share a name (the eight "Hijri" ones, the three "Persian" ones, the two Hebrew numberings): the same small step
+    # over the same year end, in one after the other (whatever one of them leaves behind is not the other's)
+    groups: dict = {}
+    for cal in cals:
+        groups.setdefault(cal.name, []).append(cal)
+    for name, sibs in groups.items():
+        if len(sibs) < 2:
+            continue
+        for _ in range(6):
+            yy = rnd.randint(max(c2.min_year for c2 in sibs) + 1, min(c2.max_year for c2 in sibs) - 1)
+            order = sibs[:]
+            rnd.shuffle(order)
+            k = rnd.choice([1, 2, 7, 10, 28, 35])
+            for cal in order + order[:1]:
+                try:
+                    miy = cal.get_months_in_year(yy)
+                    dim = cal.get_days_in_month(yy, miy)
+                    d = LocalDate(yy, miy, max(1, dim - rnd.choice([0, 0, 1, 3])), cal)
+                except Exception:  # noqa: BLE001
+                    continue
+                ev = {"op": "plus_days", "unit": "days", "n": d._days_since_epoch, "k": limbs(k), "cal": cal.id, "min_year": cal.min_year, "max_year": cal.max_year,
+                      "min_day": cal._min_days, "max_day": cal._max_days, "after_sibling": True}
+                try:
+                    r = d.plus_days(k)
+                    ev["res"], ev["res_cal"] = r._days_since_epoch, r.calendar.id
+                    ev["res_valid"] = valid_date(r)
+                except Exception as e:  # noqa: BLE001
+                    ev["exc"] = type(e).__name__
+                evs.append(ev)
+
     for _ in range(n):
         c = rnd.random()
         cal = rnd.choice(cals)
@@ -79,6 +117,7 @@ def gen(args) -> list:
                 r = (d.plus_days(k) if unit == "days" else d.plus_weeks(k)) if route == 0 else \
                     (d + (Period.from_days(k) if unit == "days" else Period.from_weeks(k)))
                 ev["res"], ev["res_cal"] = r._days_since_epoch, r.calendar.id
+                ev["res_valid"] = valid_date(r)
             except Exception as e:  # noqa: BLE001
                 ev["exc"] = type(e).__name__
             evs.append(ev)
